@@ -1008,6 +1008,7 @@ func (e *Enc) callAssert(f *frame, disp string, n int, ca CallAssert, env *Env, 
 		e.obls[n0].ClauseText = ca.Clause.Text
 		e.obls[n0].NoFinding = stone
 	}
+	e.coverAntecedent(fmt.Sprintf("%s/cover.at.%s#%d.%s", f.name, disp, n, label), env, ca.Clause)
 	if stone {
 		e.assume(g)
 	}
